@@ -38,6 +38,7 @@ RULE = ('(a) the event histories of C03 with validator verdicts drawn from all V
 
 V2_ALL = ['PASS', 'ALLOW_BYPASS', 'FAIL', 'TIMEOUT', 'SILENCE', 'RAISE_TIMEOUT', 'RAISE_OTHER']
 V1_ALL = ['PASS', 'FAIL', 'NONE', 'ZERO', 'ONE', 'RAISE_TIMEOUT', 'RAISE_OTHER']
+V1_HIST = V1_ALL + ['DEFAULT']
 F15_KEY = 'v1-validator-outlives-lifetime-and-still-decides'
 
 
@@ -70,7 +71,7 @@ def cases(rng, tier):
         for e in c['events']:
             if e[1] == 'x':
                 if rng.random() < 0.6:
-                    e[2]['verdict'] = rng.choice(V2_ALL if fe == 'v2' else V1_ALL)
+                    e[2]['verdict'] = rng.choice(V2_ALL if fe == 'v2' else V1_HIST)
                 if rng.random() < 0.4:
                     e[2]['lat'] = rng.choice([14, 44, 104, 304])
         c['kind'] = 'h'
